@@ -1,14 +1,21 @@
 (* C10 -- A failure in one call stays in that call and is reported faithfully.
-   Property theorems only; proofs live in lib/FailureProofs.v and lib/SendProofs.v. *)
+   Property theorems only; proofs live in lib/FailureProofs.v, lib/SendProofs.v, lib/SendRecvProofs.v, lib/RelayProofs.v.
+   How each model is tied to the source is said above each theorem: [T] translated from the source on every run, [C] hand-written
+   and compared with the real code by a vm_compute correspondence on every run, [S] its deciding boolean / constant is a shape
+   fact read from the source. *)
 From Coq Require Import ZArith List String Bool.
 Import ListNotations.
 Require Import Verif.lib.PyLite Verif.lib.Utf8 Verif.gen.FailureGen Verif.lib.Failure Verif.lib.FailureProofs.
 Require Import Verif.gen.SendGen Verif.lib.Send Verif.lib.SendProofs.
+Require Import Verif.gen.BananaGen Verif.lib.SendRecv Verif.lib.SendRecvProofs Verif.lib.Relay Verif.lib.RelayProofs.
+Require Verif.lib.Recv Verif.lib.BananaRecv.
+Module BR := Verif.lib.BananaRecv.
 Local Open Scope Z_scope.
 
 (* "an exception raised by the method (any type, any message text) ... fails exactly that call ... carries a prefix of
    its message ... never mistaken for a local schema problem":
-   for EVERY exception -- any class name, any message text (including text that UTF-8 cannot encode, which is escaped
+   [T truncate, limits; C get_state byte for byte]  for EVERY exception raised on the callee (FailureSlicer; a CopiedFailure that a
+   middle party sends on goes through CopiedFailureSlicer instead: C10_relay_end_to_end) -- any class name, any message text (including text that UTF-8 cannot encode, which is escaped
    \udXXX), a __str__ that raises (reflect.safe_str's text is used), any traceback text, any ancestry -- with or without
    unsafe tracebacks, getStateToCopy returns (it cannot raise inside the slicer); every field it sends satisfies the byte
    limits that the caller's FailureConstraint enforces (so the caller cannot raise a local Violation on it); and every
@@ -26,7 +33,7 @@ Print Assumptions C10_failure_fits.
 
 (* escaping never fails and changes nothing in text that UTF-8 can encode *)
 Theorem C10_escape : forall t, wf_text (escape t) /\ (wf_text t -> escape t = t).
-Proof. intros t. split; [apply escape_wf|apply escape_id]. Qed.
+Proof. exact escape_spec. Qed.
 Print Assumptions C10_escape.
 
 (* the translated truncate obeys its limit on EVERY byte string, and cuts well-formed text at a character boundary *)
@@ -46,7 +53,9 @@ Theorem C10_field_is_utf8 : forall orig lim b, wf_text orig -> field_of orig lim
 Proof. exact field_is_utf8. Qed.
 Print Assumptions C10_field_is_utf8.
 
-(* "or is uniformly wrapped when the Tub is configured to hide remote exception types": for EVERY transmitted failure,
+(* [S wrap_is_unconditional, wrap_when_expose_is; C deliver against ErrorUnslicer.receiveClose + wrap_remote_failure]  By itself this
+   is the two shape facts restated (deliver is a two-line function); the observable statement is C10_hidden_is_uniform.
+   "or is uniformly wrapped when the Tub is configured to hide remote exception types": for EVERY transmitted failure,
    including one whose own remote class is RemoteException (raised by the callee, or relayed by a middle party that hides
    types too); that wrap_remote_failure has no exception for such failures is read from the source *)
 Theorem C10_faithful_delivery : forall expose s,
@@ -83,7 +92,9 @@ Theorem C10_send_abort_wellformed : forall c evs,
 Proof. exact wire_wellformed. Qed.
 Print Assumptions C10_send_abort_wellformed.
 
-(* "the connection stays up": only a non-Violation exception takes it down *)
+(* [S the handlers of Banana.produce; C `up` of run against Broker.disconnected in the send correspondence of every batch]
+   "the connection stays up": only a non-Violation exception takes it down.  (By construction of `step`: the content is which
+   events exist and which of them are Violations, i.e. the shape facts of produce's two `except Violation` sites and its catch-all.) *)
 Theorem C10_connection_stays_up : forall evs s, all_ok s evs = true -> up (run s evs) = up s.
 Proof. exact stays_up. Qed.
 Print Assumptions C10_connection_stays_up.
@@ -119,7 +130,13 @@ Theorem C10_open_numbers_in_step : forall c evs flags,
 Proof. exact open_numbers_in_step. Qed.
 Print Assumptions C10_open_numbers_in_step.
 
-(* "an argument ... violates a schema on either side ... fails exactly that call ... every other outstanding or later call
+(* [S pb_unslicers_propagate; C cstep against the real Banana.handleData + PB unslicers, token by token, both directions of every
+   batch, with the real handleViolation calls as flags]  The counting receiver is an ABSTRACTION of handleData under the shape fact
+   "every PB unslicer's reportViolation returns the failure": its `cdown` is constant and its `cdepth` counts OPEN/CLOSE only, so
+   of the three conclusions only the third (discarding ends with the top-level object) says something about rejections, and it is
+   coded into cstep's CLOSE clause.  What constrains the discardCount arithmetic of handleViolation is the correspondence, and --
+   as a theorem -- C10_real_receiver_in_step_partial below, stated on C07's statement-by-statement transcription of handleData.
+   "an argument ... violates a schema on either side ... fails exactly that call ... every other outstanding or later call
    is unaffected", receive side: for every sequence of slicer behaviours and EVERY choice of the tokens at which unslicers of
    the receiving side raise Violation (schema violations, unknown method/object, an `error`/`answer` for a request that was
    already retired ...), no unslicer is left on the stack, the nesting follows the sender's, and once the sender is back at
@@ -136,10 +153,13 @@ Print Assumptions C10_receiver_rejections_contained.
 (* "the caller's failure identifies the remote exception's type (by class name ...)": the class object in f.type is built
    from the transmitted name alone; its __module__ + "." + __name__ (reflect.qual) is that name again *)
 Theorem C10_type_name_identified : forall t, In type_name_separator t -> requal type_name_separator t = t.
-Proof. intros t. apply type_name_identified. Qed.
+Proof. exact (type_name_identified type_name_separator). Qed.
 Print Assumptions C10_type_name_identified.
 
-(* "an argument ... that cannot be [de]serialized ... on either side ... fails exactly that call ... every other outstanding
+(* [S ready_flag_cleared_on_failure; C drain against the instrumented Broker.scheduleCall / _doCall / callFailed of every batch]
+   With the flag read as true `drain false` IS `map expected_handling`: the theorem restates the shape fact; the content is the
+   correspondence (real arrival order and real readiness outcomes in, real handling out).
+   "an argument ... that cannot be [de]serialized ... on either side ... fails exactly that call ... every other outstanding
    or later call is unaffected", arguments that become ready (or fail) asynchronously on the callee: whatever the readiness
    outcome of each delivery in the callee's inbound queue, every delivery is handled exactly once and in order -- run if its
    arguments resolved, answered with an error if they did not.  That the waiting flag is cleared on failure too is read
@@ -157,10 +177,125 @@ Theorem C10_failure_fits_any_encoding : forall unsafe e vocab,
 Proof. exact failure_fits_any_encoding. Qed.
 Print Assumptions C10_failure_fits_any_encoding.
 
-(* "fails exactly that call", caller side: under every setting of the Tub's logging options, for targets with and without a
+(* [S log_name_has_fallback; C fail_request against the real PendingRequest.fail, all 8 settings]  (C03 translates PendingRequest.fail
+   statement by statement for "exactly once"; this theorem only adds that the optional logging block cannot raise.)
+   "fails exactly that call", caller side: under every setting of the Tub's logging options, for targets with and without a
    RemoteInterface, failing a pending request fires its Deferred exactly once and raises nothing (so nothing escapes into
    dataReceived).  That the logged method name cannot raise for a missing interface name is read from the source. *)
 Theorem C10_fail_fires_once : forall logging known r, p_active r = true ->
   fail_request logging known r = FailDone {| p_active := false; p_fired := S (p_fired r) |}.
 Proof. exact fail_fires_once. Qed.
 Print Assumptions C10_fail_fires_once.
+
+(* "The caller's failure identifies the remote exception's type (by class name ...) and carries a prefix of its message":
+   a class name / a message that UTF-8 can encode and that fits the limit (200 / 1000 bytes) arrives byte for byte
+   (C10_failure_fits covers the rest: escaped, or a whole-character prefix + "..") *)
+Theorem C10_type_and_message_exact : forall unsafe e s, get_state unsafe e = Ok s ->
+  (wf_text (e_type e) -> blen (utf8 (e_type e)) <= trunc_limit_type -> s_type s = utf8 (e_type e)) /\
+  (wf_text (rendered e) -> blen (utf8 (rendered e)) <= trunc_limit_value -> s_value s = utf8 (rendered e)).
+Proof. exact type_and_message_exact. Qed.
+Print Assumptions C10_type_and_message_exact.
+
+(* "(... and ancestry)": the transmitted ancestry has the length (and, by C10_failure_fits' Forall2, the order) of the
+   original one; check()/trap() on the caller -- a membership test on these strings -- finds every ancestor whose name
+   fits, whatever was truncated around it; and every transmitted entry is the field of an original ancestor *)
+Theorem C10_ancestry_preserved : forall unsafe e s, get_state unsafe e = Ok s ->
+  List.length (s_parents s) = List.length (e_parents e) /\
+  (forall n, In n (e_parents e) -> wf_text n -> blen (utf8 n) <= trunc_limit_parents ->
+             delivered_check (Copied s) (utf8 n) = true) /\
+  (forall b, delivered_check (Copied s) b = true ->
+             exists p, In p (e_parents e) /\ field_of (escape p) trunc_limit_parents b).
+Proof. exact ancestry_preserved. Qed.
+Print Assumptions C10_ancestry_preserved.
+
+(* the ancestry is transmitted entry by entry: every prefix of the original ancestry gives the same prefix of the
+   transmitted one and leaves the other fields alone (no entry, and no limit, depends on another entry) *)
+Theorem C10_ancestry_prefix_closed : forall unsafe e s k, get_state unsafe e = Ok s ->
+  exists s', get_state unsafe {| e_type := e_type e; e_str := e_str e; e_fallback := e_fallback e; e_stack := e_stack e;
+                                 e_parents := firstn k (e_parents e) |} = Ok s' /\
+             s_parents s' = firstn k (s_parents s) /\ s_type s' = s_type s /\ s_value s' = s_value s /\
+             s_traceback s' = s_traceback s.
+Proof. exact ancestry_prefix_closed. Qed.
+Print Assumptions C10_ancestry_prefix_closed.
+
+(* "or is uniformly wrapped when the Tub is configured to hide remote exception types": what the caller can learn from
+   f.type and from check()/trap() is the same for EVERY transmitted failure (a Violation, a RemoteException raised or
+   relayed by the far side, anything): RemoteException and its own ancestry (read from tokens.py) *)
+Theorem C10_hidden_is_uniform : forall s1 s2 n,
+  delivered_check (deliver false s1) n = delivered_check (deliver false s2) n /\
+  delivered_type (deliver false s1) = delivered_type (deliver false s2) /\
+  delivered_check (deliver false s1) remote_exception_name = true /\
+  delivered_type (deliver false s1) = remote_exception_name.
+Proof. exact hidden_is_uniform. Qed.
+Print Assumptions C10_hidden_is_uniform.
+
+(* the second sentence of the property, end to end, by composition of the theorems above: for EVERY exception and both
+   settings of both options the report reaches the caller's Deferred -- getStateToCopy does not raise, the caller's
+   FailureConstraint accepts ("never mistaken for a local schema problem") -- wrapped iff types are hidden; exposed: the type
+   name and every ancestor that fit are identified; hidden: RemoteException, uniformly *)
+Theorem C10_report_end_to_end : forall unsafe expose e,
+  exists s, get_state unsafe e = Ok s /\
+    report unsafe expose e = Ok (if expose then Copied s else Wrapped s) /\
+    (expose = true -> wf_text (e_type e) -> blen (utf8 (e_type e)) <= trunc_limit_type ->
+       delivered_type (deliver expose s) = utf8 (e_type e)) /\
+    (expose = true -> forall n, In n (e_parents e) -> wf_text n -> blen (utf8 n) <= trunc_limit_parents ->
+       delivered_check (deliver expose s) (utf8 n) = true) /\
+    (expose = false -> delivered_type (deliver expose s) = remote_exception_name /\
+       forall n, delivered_check (deliver expose s) n = existsb (list_eqb n) remote_exception_parents).
+Proof. exact report_end_to_end. Qed.
+Print Assumptions C10_report_end_to_end.
+
+(* "the connection stays up and every other outstanding or later call is unaffected", on the receive model of C07
+   (lib/BananaRecv.v: Banana.handleData / handleOpen / handleToken / handleClose / handleViolation transcribed -- discardCount,
+   inOpen, receiveStack, objectCounter -- not the stricter framing checker of lib/Send.v).  For EVERY sequence of slicer
+   behaviours of the sender, every wire form `pay` of its primitive tokens, every policy of the receiving root and every
+   vocabulary (hence every pattern of Violations raised by the receiving unslicers), as long as the receiving Banana has not
+   dropped the connection: its nesting is the sender's slicer stack depth, its objectCounter advanced by the sender's
+   openCount advance, and whenever the sender is back at its RootSlicer the receiver is back at top level (discardCount 0,
+   only the root unslicer, no index phase).
+   _partial: the hypothesis `received .. = Ok' ..` (no BananaError / lost sync on the receiving side) is not discharged for
+   BananaRecv; that the sender's stream never loses sync is proved for the number-checking receiver
+   (C10_send_abort_wellformed) and compared token by token with the real Banana.handleData by the correspondence. *)
+Theorem C10_real_receiver_in_step_partial : forall c evs mode voc pay c' es,
+  (forall z, is_payload (pay z) = true) ->
+  let s := run (init c) evs in
+  received mode voc pay s = BR.Ok' c' es ->
+  BR.open_depth c' = Z.of_nat (List.length (stack s)) /\
+  open_counter_step * BR.objctr c' = cnt s - c /\
+  (stack s = [] -> BR.at_top c') /\
+  BR.rootmode c' = mode /\ BR.vocab c' = voc.
+Proof. exact real_receiver_in_step. Qed.
+Print Assumptions C10_real_receiver_in_step_partial.
+
+(* ... so a further object written after ANY history that left the RootSlicer in charge meets a C07 receiver that is at
+   top level, and leaves it at top level: the history reaches the sibling only through the counters *)
+Theorem C10_sibling_after_any_history_partial : forall c pre more mode voc pay c2 es2,
+  (forall z, is_payload (pay z) = true) ->
+  stack (run (init c) pre) = [] -> stack (run (init c) (pre ++ more)) = [] ->
+  received mode voc pay (run (init c) (pre ++ more)) = BR.Ok' c2 es2 ->
+  BR.at_top c2 /\
+  exists c1 es1 es', received mode voc pay (run (init c) pre) = BR.Ok' c1 es1 /\ BR.at_top c1 /\
+                     es2 = es1 ++ es' /\
+                     open_counter_step * (BR.objctr c2 - BR.objctr c1) = cnt (run (init c) (pre ++ more)) - cnt (run (init c) pre).
+Proof. exact sibling_after_any_history. Qed.
+Print Assumptions C10_sibling_after_any_history_partial.
+
+(* the RELAY path (A calls B, B calls C, C fails; B sends its CopiedFailure on through CopiedFailureSlicer.getStateToCopy, which
+   does not truncate and rebuilds the type name with reflect.qual of the stand-in class).  [S the statement list of that function;
+   C relay_state against the real CopiedFailureSlicer]  For EVERY exception of a class whose qualified name has a dot (reflect.qual:
+   module + "." + name, always), every tracebacks setting at C and at B and both expose settings at A: the relayed report reaches
+   A's Deferred -- B's slicer does not raise, A's FailureConstraint accepts -- with the type name, message and ancestry C sent *)
+Theorem C10_relay_end_to_end : forall unsafe_c unsafe_b expose_a e, In 46 (e_type e) ->
+  exists s, get_state unsafe_c e = Ok s /\
+    relayed_report unsafe_c unsafe_b expose_a e = Ok (deliver expose_a (relay_state unsafe_b s)) /\
+    s_type (relay_state unsafe_b s) = s_type s /\ s_value (relay_state unsafe_b s) = s_value s /\
+    s_parents (relay_state unsafe_b s) = s_parents s.
+Proof. exact relay_end_to_end. Qed.
+Print Assumptions C10_relay_end_to_end.
+
+(* without the dot the statement is false of the model: qual() of the stand-in class prepends "." to a dotless name, one
+   byte more than was received, and a 200-byte name no longer fits A's FailureConstraint.  Not reachable from foolscap's own
+   FailureSlicer (reflect.qual always contains a dot); a peer that writes its own `copyable` could send such a name to B. *)
+Theorem C10_relay_dotless_refuted : exists s, failure_constraint_ok s = true /\ failure_constraint_ok (relay_state true s) = false.
+Proof. exact relay_dotless_refuted. Qed.
+Print Assumptions C10_relay_dotless_refuted.
